@@ -482,11 +482,20 @@ func (c15) Exec(sc *sim.Scenario, env *sim.Env) *sim.Violation {
 				// the same listing into a writer that offers io.StringWriter / io.ByteWriter /
 				// io.ReaderFrom (as bytes.Buffer, strings.Builder and os.File do)
 				rs := &sim.RichSink{SimSink: sim.NewSink(env, sim.SinkOK, 0)}
+				// the destination already holds something (an earlier routine's listing, say)
+				held := 0
+				if k%2 == 0 {
+					head := []byte("; ---- previous content of the destination ----\n")
+					for j := 0; j < 1+k%40; j++ {
+						_, _ = rs.SimSink.Write(head)
+					}
+					held = len(rs.All())
+				}
 				p, pmsg, err := doListing(e, kind, rs)
 				if p || err != nil {
 					return &sim.Violation{Oracle: "listing_panic", Step: i, Msg: fmt.Sprintf("listing (kind %d) into a writer with optional io interfaces: panic=%v %s err=%v", kind, p, pmsg, err)}
 				}
-				if v := checkListing(kind, string(rs.All()), m, pre.Bytes, i); v != nil {
+				if v := checkListing(kind, string(rs.All()[held:]), m, pre.Bytes, i); v != nil {
 					v.Msg = "into a writer that also offers WriteString/WriteByte/ReadFrom: " + v.Msg
 					return v
 				}
